@@ -102,6 +102,25 @@ def run(tier, seed, replay=None):
         if cdt == torch.float32: tol = max(tol, 1e-6)            # single precision cannot certify less
         if res > CONST * tol + 1e-12:
             V.fail("%s: q*y differs from the numerator by more than %g*tol" % (form, CONST), dict(desc, rel_residual=res, tol=tol, ranks=[int(r) for r in q.R]))
+    # ---- the local iterative solver on COMPLEX data (the division of complex tensors reaches it as soon as a local problem exceeds max_full): the contract of
+    # gmres_restart - relative residual below the threshold on well-conditioned systems - in complex arithmetic (Hermitian inner product, unitary rotations)
+    import torchtt._iterative_solvers as ISv
+    class _MatOp:
+        def __init__(self, A_): self.A = A_
+        def matvec(self, v, *a_): return self.A @ v.reshape(-1, 1)
+    rng_g = random.Random(seed + 61)
+    for j in range(4 if tier == "quick" else 30):
+        n_ = rng_g.choice([40, 60, 80]); gdt = [torch.complex128, torch.float64][j % 2]
+        gg = np.random.default_rng(rng_g.randrange(1 << 30))
+        A_ = torch.tensor(gg.standard_normal((n_, n_)) * 0.1 + (1j * gg.standard_normal((n_, n_)) * 0.1 if gdt.is_complex else 0.0) + 2.0 * np.eye(n_), dtype=gdt)
+        b_ = torch.tensor(gg.standard_normal((n_, 1)) + (1j * gg.standard_normal((n_, 1)) if gdt.is_complex else 0.0), dtype=gdt)
+        try:
+            xg, fl_, it_ = ISv.gmres_restart(_MatOp(A_), b_, b_ * 0, n_, 41, 1e-10, 3)
+            rg = float((A_ @ xg - b_).norm() / b_.norm())
+            if not rg <= 1e-8: V.fail("gmres_restart does not solve a well-conditioned %s system" % ("complex" if gdt.is_complex else "real"), {"n": n_, "dtype": str(gdt), "rel_residual": rg, "iterations": int(it_), "seed_case": j})
+        except Exception as ex:
+            V.fail("gmres_restart raises %s" % type(ex).__name__, {"n": n_, "dtype": str(gdt), "exc": str(ex)[:200]})
+        dist["gmres contract " + ("complex" if gdt.is_complex else "real")] = dist.get("gmres contract " + ("complex" if gdt.is_complex else "real"), 0) + 1
     # ---- exact correspondence of the interface recursions of torchtt/_division.py (the divisor's cores act as a DIAGONAL operator: einsum
     # 'lsr,lML,sMS,rMR') with Model/Local.v on complex integer data - the model conjugates the left cores (the Hermitian projection): this is
     # where a transposed instead of a conjugated projection shows exactly
